@@ -29,6 +29,10 @@ func runC02(c *core.Ctx) {
 	c.RuleDoc("R02.9", "the flag OpenFile was called with reaches the handle on every path (= R01.6)")
 	c.RuleDoc("R02.10", "Seek stores the new offset only after rejecting a negative one")
 	c.RuleDoc("R02.11", "the in-memory store keeps the blob it is given (handles share it)")
+	c.RuleDoc("R02.13", "OpenFile constructs a record only where the name was not found: the handle of an existing file wraps the stored record")
+	c.RuleDoc("R02.14", "the content grows by exactly the tested target minus its current length")
+	c.RuleDoc("R02.15", "positioned methods, Truncate, Stat and Chmod never store the handle's offset")
+	c.RuleDoc("R02.16", "write methods copy the caller's bytes, they never store the buffer")
 	c.RuleDoc("R02.12", "a mutation whose write-back fails is undone")
 	c.RuleDoc("R02.8", "a positioned write refuses a handle opened with O_APPEND")
 	c.RuleDoc("R02.7", "a handle's Stat loads the content, so the size it reports is current")
@@ -45,7 +49,11 @@ func runC02(c *core.Ctx) {
 		r02PositionedAppend(c, p, fileT)
 		if sh := findKVShape(p); sh != nil {
 			r01FlagReachesHandle(c, p, sh, "R02.9")
+			r02ExistingKeepsRecord(c, p, sh)
 		}
+		r02GrowExact(c, p, fileT)
+		r02OffsetWriters(c, p, fileT)
+		r02NoAdopt(c, p, fileT, "R02.16")
 		r02SeekValidates(c, p, fileT)
 		r02FailedSaveRestores(c, p, fileT)
 		r02StoreKeepsBlob(c, p)
@@ -61,6 +69,10 @@ func runC02(c *core.Ctx) {
 	c.Floor("R02.9", 1)
 	c.Floor("R02.10", 1)
 	c.Floor("R02.11", 1)
+	c.Floor("R02.13", 1)
+	c.Floor("R02.14", 2)
+	c.Floor("R02.15", 5)
+	c.Floor("R02.16", 3)
 }
 
 func blobFuncs(p *load.Program, names ...string) map[*ssa.Function]bool {
@@ -872,5 +884,365 @@ func r02FailedSaveRestores(c *core.Ctx, p *load.Program, fileT *types.Named) {
 					fmt.Sprintf("%s changes the content blob (at %s) before it writes the record back, and returns the write-back's error without undoing the change: the call fails, yet this handle — and, where the store shares blobs, every other handle — reads the new bytes and size ('a call that fails leaves the contents unchanged')", fname(fn), p.Pos(firstMut.Pos())))
 			}
 		}
+	}
+}
+
+// ---- R02.13: the handle of an existing file wraps the stored record ----
+
+// r02ExistingKeepsRecord: in the key-value FS's OpenFile every call of a record constructor (newFile/newDir) lies on
+// the "look-up failed" edge of the look-up of the name. On the edge where the file exists the handle must wrap the
+// record that was found — handles opened earlier share its content blob; a fresh record (e.g. for O_TRUNC) cuts them
+// off: they keep reading the old bytes and their next write-back resurrects them.
+func r02ExistingKeepsRecord(c *core.Ctx, p *load.Program, sh *kvShape) {
+	fn := sh.methods["OpenFile"]
+	if fn == nil {
+		c.Hard("anchor: keyvalue.FS.OpenFile")
+		return
+	}
+	ord := ordinals{}
+	n := 0
+	ssax.Instrs(fn, func(ins ssa.Instruction) {
+		cl, ok := ins.(*ssa.Call)
+		if !ok || !sh.ctorFns[ssax.StaticCallee(cl)] {
+			return
+		}
+		n++
+		key := fname(fn) + "|" + ord.next("constructs-record-only-when-absent")
+		var pval ssa.Value
+		for _, a := range cl.Call.Args {
+			if isStr(a.Type()) {
+				pval = a
+			}
+		}
+		isNil, known := false, false
+		for _, f := range ssax.FactsAtInstr(cl) {
+			x, eq, ok := ssax.NilTest(f.Cond)
+			if !ok || !ssax.IsErrorType(x.Type()) || pval == nil {
+				continue
+			}
+			if lp := sh.lookupPathOf(x, 0); lp != nil && lp == pval {
+				isNil, known = eq == f.Val, true
+			}
+		}
+		c.Check(known && !isNil, "R02.13", key, p.Pos(cl.Pos()), "the record is constructed on the edge where the look-up of the name failed",
+			fmt.Sprintf("%s constructs a new record at %s on a path where the look-up of the name may have succeeded: the handle of an existing file must wrap the stored record (whose content blob the handles opened earlier share) — with a fresh record those handles keep the old bytes, never see later writes, and their next write-back overwrites the new contents", fname(fn), p.Pos(cl.Pos())))
+	})
+	if n == 0 {
+		c.Hard("anchor: record constructor call in keyvalue.FS.OpenFile")
+	}
+}
+
+// ---- R02.14: a file grows to exactly the end of the write ----
+
+type linForm struct {
+	k     int64
+	atoms map[string]int64
+}
+
+func (l linForm) add(o linForm, sign int64) linForm {
+	r := linForm{k: l.k + sign*o.k, atoms: map[string]int64{}}
+	for a, v := range l.atoms {
+		r.atoms[a] = v
+	}
+	for a, v := range o.atoms {
+		r.atoms[a] += sign * v
+		if r.atoms[a] == 0 {
+			delete(r.atoms, a)
+		}
+	}
+	return r
+}
+
+func (l linForm) equal(o linForm) bool {
+	d := l.add(o, -1)
+	return d.k == 0 && len(d.atoms) == 0
+}
+
+// linOf: v as an integer linear form on this path. Len() of one receiver value is one atom (no CSE in go/ssa).
+func linOf(ps *ssax.PathState, v ssa.Value, depth int) linForm {
+	v = ps.Resolve(v)
+	if depth < 12 {
+		switch x := v.(type) {
+		case *ssa.Convert:
+			if b, ok := x.X.Type().Underlying().(*types.Basic); ok && b.Info()&types.IsInteger != 0 {
+				return linOf(ps, x.X, depth+1)
+			}
+		case *ssa.Const:
+			if k, ok := ssax.ConstInt(x); ok {
+				return linForm{k: k, atoms: map[string]int64{}}
+			}
+		case *ssa.BinOp:
+			switch x.Op {
+			case token.ADD:
+				return linOf(ps, x.X, depth+1).add(linOf(ps, x.Y, depth+1), 1)
+			case token.SUB:
+				return linOf(ps, x.X, depth+1).add(linOf(ps, x.Y, depth+1), -1)
+			}
+		case *ssa.Call:
+			if x.Call.IsInvoke() && x.Call.Method.Name() == "Len" && len(x.Call.Args) == 0 {
+				return linForm{atoms: map[string]int64{fmt.Sprintf("Len(%p)", ps.Resolve(x.Call.Value)): 1}}
+			}
+		}
+	}
+	return linForm{atoms: map[string]int64{fmt.Sprintf("%p", v): 1}}
+}
+
+// r02GrowExact: every blob.Grow(data, amount) in a handle method is made under a dominating test "L < T" where L is
+// data.Len(), and amount equals T - L as a linear form on every path to the call (phis resolved per path).
+func r02GrowExact(c *core.Ctx, p *load.Program, fileT *types.Named) {
+	grow := p.Func("keyvalue/blob", "Grow")
+	if grow == nil {
+		c.Hard("anchor: blob.Grow")
+		return
+	}
+	for _, fn := range methodList(p, fileT) {
+		ord := ordinals{}
+		for _, b := range fn.Blocks {
+			for _, ins := range b.Instrs {
+				cl, ok := ins.(*ssa.Call)
+				if !ok || ssax.StaticCallee(cl) != grow || len(cl.Call.Args) != 2 {
+					continue
+				}
+				key := fname(fn) + "|" + ord.next("grow-amount")
+				data, amt := cl.Call.Args[0], cl.Call.Args[1]
+				paths, okPaths := 0, 0
+				why := ""
+				complete := ssax.EnumPaths(fn, fn.Blocks[0], 0, ssax.NewPathState(), ssax.PathHooks{
+					Instr: func(ps *ssax.PathState, i2 ssa.Instruction) {
+						if i2 != ssa.Instruction(cl) {
+							return
+						}
+						if ps.Counts["seen"] == 1 {
+							return
+						}
+						ps.Counts["seen"] = 1
+						paths++
+						a := linOf(ps, amt, 0)
+						lenAtom := fmt.Sprintf("Len(%p)", ps.Resolve(data))
+						for _, f := range ssax.FactsAtInstr(cl) {
+							bo, ok := f.Cond.(*ssa.BinOp)
+							if !ok {
+								continue
+							}
+							var lo, hi ssa.Value
+							switch {
+							case bo.Op == token.LSS && f.Val, bo.Op == token.GEQ && !f.Val:
+								lo, hi = bo.X, bo.Y
+							case bo.Op == token.GTR && f.Val, bo.Op == token.LEQ && !f.Val:
+								lo, hi = bo.Y, bo.X
+							default:
+								continue
+							}
+							l := linOf(ps, lo, 0)
+							if len(l.atoms) != 1 || l.atoms[lenAtom] != 1 || l.k != 0 {
+								continue
+							}
+							if a.equal(linOf(ps, hi, 0).add(l, -1)) {
+								okPaths++
+								return
+							}
+							why = "the amount differs from 'target - current length'"
+						}
+						if why == "" {
+							why = "no dominating test compares the current length with the target"
+						}
+					},
+				})
+				switch {
+				case !complete:
+					c.Unknown("R02.14", key, p.Pos(cl.Pos()), "path enumeration exceeded its cap")
+				case paths > 0 && paths == okPaths:
+					c.OK("R02.14", key, p.Pos(cl.Pos()), "on every path the amount is the tested target minus the content's current length")
+				default:
+					c.Bad("R02.14", key, p.Pos(cl.Pos()), fmt.Sprintf("%s grows the content at %s by an amount that is not, on every path, the difference between the end the operation needs and the content's current length (%s; %d of %d paths agree): a write that starts inside the file and ends beyond its end leaves spurious zero bytes after the data, and size, EOF position and O_APPEND offsets are shifted", fname(fn), p.Pos(cl.Pos()), why, okPaths, paths))
+				}
+			}
+		}
+	}
+}
+
+func methodList(p *load.Program, n *types.Named) []*ssa.Function {
+	m := methodsOf(p, n)
+	var names []string
+	for k := range m {
+		names = append(names, k)
+	}
+	sort.Strings(names)
+	var out []*ssa.Function
+	for _, k := range names {
+		if m[k] != nil && m[k].Blocks != nil {
+			out = append(out, m[k])
+		}
+	}
+	return out
+}
+
+// ---- R02.15: who may move a handle's offset ----
+
+// r02OffsetWriters: the offset field is the one Seek stores into. The positioned and stateless methods of the handle
+// (ReadAt, ReadBlobAt, WriteAt, WriteBlobAt, Truncate, Stat, Chmod, Sync) reach no store to it.
+func r02OffsetWriters(c *core.Ctx, p *load.Program, fileT *types.Named) {
+	ms := methodsOf(p, fileT)
+	seek := ms["Seek"]
+	if seek == nil {
+		c.Hard("anchor: keyvalue.file.Seek")
+		return
+	}
+	var field *types.Var
+	ssax.Instrs(seek, func(ins ssa.Instruction) {
+		if st, ok := ins.(*ssa.Store); ok {
+			if fa, ok := st.Addr.(*ssa.FieldAddr); ok && fa.X == ssa.Value(recvParam(seek)) {
+				field = fieldVarOf(fa)
+			}
+		}
+	})
+	if field == nil {
+		c.Hard("anchor: the offset field Seek stores into")
+		return
+	}
+	writes := map[*ssa.Function]token.Pos{}
+	for _, fn := range pkgFuncs(p, "keyvalue") {
+		ssax.Instrs(fn, func(ins ssa.Instruction) {
+			if st, ok := ins.(*ssa.Store); ok {
+				if fa, ok := st.Addr.(*ssa.FieldAddr); ok && fieldVarOf(fa) == field {
+					writes[fn] = st.Pos()
+				}
+			}
+		})
+	}
+	var reach func(fn *ssa.Function, seen map[*ssa.Function]bool) *ssa.Function
+	reach = func(fn *ssa.Function, seen map[*ssa.Function]bool) *ssa.Function {
+		if seen[fn] {
+			return nil
+		}
+		seen[fn] = true
+		if _, ok := writes[fn]; ok {
+			return fn
+		}
+		var hit *ssa.Function
+		ssax.InstrsDeep(fn, func(_ *ssa.Function, ins ssa.Instruction) {
+			if ci, ok := ins.(ssa.CallInstruction); ok && hit == nil {
+				if callee := ssax.StaticCallee(ci); callee != nil && p.InModule(callee) && callee.Blocks != nil {
+					hit = reach(callee, seen)
+				}
+			}
+		})
+		return hit
+	}
+	n := 0
+	for _, name := range []string{"ReadAt", "ReadBlobAt", "WriteAt", "WriteBlobAt", "Truncate", "Stat", "Chmod", "Sync"} {
+		fn := ms[name]
+		if fn == nil {
+			continue
+		}
+		n++
+		key := typeKey(fileT) + "." + name + "|keeps-offset"
+		if h := reach(fn, map[*ssa.Function]bool{}); h != nil {
+			c.Bad("R02.15", key, p.Pos(writes[h]), fmt.Sprintf("%s.%s reaches a store to the handle's offset (in %s): os.File's positioned operations and ftruncate never move the offset — after Write(\"hello world\"); Truncate(5) the next Write must land at offset 11 behind a gap of zero bytes, and Seek(0, SeekCurrent) must still report 11", typeKey(fileT), name, fname(h)))
+		} else {
+			c.OK("R02.15", key, p.Pos(fn.Pos()), "no store to the offset field is reachable")
+		}
+	}
+	if n < 5 {
+		c.Hard("anchor: positioned methods of keyvalue.file (found %d)", n)
+	}
+}
+
+// ---- R02.16: written bytes are copied, the caller's blob is never adopted ----
+
+// r02NoAdopt: a blob.Blob (or []byte) parameter of a write method of the handle is only measured (Len), passed as the
+// source of blob.Set, wrapped (blob.NewBytes) or handed to another write method that obeys the same rule; it is never
+// stored into a field. io.Writer: "Write must not retain p" — the tar reader recycles the buffer it wrote from.
+func r02NoAdopt(c *core.Ctx, p *load.Program, fileT *types.Named, rule string) {
+	blobI := ifaceOf(p, "keyvalue/blob", "Blob")
+	isSrc := func(t types.Type) bool {
+		if blobI != nil && types.Identical(t.Underlying(), blobI) {
+			return true
+		}
+		if sl, ok := t.Underlying().(*types.Slice); ok {
+			if b, ok := sl.Elem().Underlying().(*types.Basic); ok && b.Kind() == types.Uint8 {
+				return true
+			}
+		}
+		return false
+	}
+	memo := map[*ssa.Parameter]string{}
+	var adopt func(prm *ssa.Parameter, depth int) string
+	var flows func(v ssa.Value, fn *ssa.Function, depth int, seen map[ssa.Value]bool) string
+	flows = func(v ssa.Value, fn *ssa.Function, depth int, seen map[ssa.Value]bool) string {
+		if seen[v] || depth > 6 {
+			return ""
+		}
+		seen[v] = true
+		refs := v.Referrers()
+		if refs == nil {
+			return ""
+		}
+		for _, r := range *refs {
+			switch x := r.(type) {
+			case *ssa.Store:
+				if x.Val == v {
+					if _, isLocal := x.Addr.(*ssa.Alloc); !isLocal {
+						return p.Pos(x.Pos())
+					}
+				}
+			case *ssa.MakeInterface, *ssa.ChangeInterface, *ssa.ChangeType, *ssa.Phi:
+				if w := flows(x.(ssa.Value), fn, depth, seen); w != "" {
+					return w
+				}
+			case ssa.CallInstruction:
+				callee := ssax.StaticCallee(x)
+				if callee == nil || !p.InModule(callee) || callee.Blocks == nil {
+					continue
+				}
+				if pkgPathOf(callee) == mod+"/keyvalue/blob" && callee.Name() == "NewBytes" {
+					// a wrapper around the same bytes: follow it
+					if cv, ok := x.(*ssa.Call); ok {
+						if w := flows(cv, fn, depth, seen); w != "" {
+							return w
+						}
+					}
+					continue
+				}
+				for i, a := range x.Common().Args {
+					if a == v && i < len(callee.Params) && fileT != nil && callee.Signature.Recv() != nil && strings.HasSuffix(callee.Signature.Recv().Type().String(), "keyvalue.file") {
+						if w := adopt(callee.Params[i], depth+1); w != "" {
+							return w
+						}
+					}
+				}
+			}
+		}
+		return ""
+	}
+	adopt = func(prm *ssa.Parameter, depth int) string {
+		if w, ok := memo[prm]; ok {
+			return w
+		}
+		memo[prm] = ""
+		w := flows(prm, prm.Parent(), depth, map[ssa.Value]bool{})
+		memo[prm] = w
+		return w
+	}
+	n := 0
+	for _, fn := range methodList(p, fileT) {
+		if fn.Object() == nil || !fn.Object().Exported() {
+			continue
+		}
+		for i, prm := range fn.Params {
+			if i == 0 || !isSrc(prm.Type()) || !strings.HasPrefix(fn.Name(), "Write") {
+				continue
+			}
+			n++
+			key := fname(fn) + "|copies-" + prm.Name()
+			if w := adopt(prm, 0); w != "" {
+				c.Bad(rule, key, w, fmt.Sprintf("%s: the caller's buffer %s is stored at %s instead of being copied into the file's content: the caller may reuse it after Write returns (io.Writer must not retain p; the tar reader returns its buffer to a pool), and the file's bytes then change under it", fname(fn), prm.Name(), w))
+			} else {
+				c.OK(rule, key, p.Pos(fn.Pos()), "the written bytes are only measured and copied")
+			}
+		}
+	}
+	if n < 3 {
+		c.Hard("anchor: write methods of keyvalue.file taking a buffer (found %d)", n)
 	}
 }
